@@ -168,6 +168,13 @@ func harnessC11TypedBody() {
 	checkTyped(parser.VerifBodyTokens(k))
 }
 
+// harnessC11TypedDirective: the same for a specification that begins with an open directive
+// (`grammar IDENT @left TOKEN` followed by up to astBodyK+1 arbitrary tokens): second and later handles.
+func harnessC11TypedDirective() {
+	k := verif.Len("k", 0, astBodyK+1)
+	checkTyped(parser.VerifOpenDirectiveTokens(k))
+}
+
 func checkTyped(toks []lexer.Token) {
 	parser.VerifSetLexer(toks)
 	g, err := Parse("f", nil)
